@@ -87,6 +87,75 @@ def kv_mutators(r: R):
     return sorted(out, key=lambda f: f.qual)
 
 
+def _tri(e, is_elem_cmp):
+    """three-valued truth of a test when every order comparison between two elements of the vector is False (what IEEE gives for
+    an unordered pair) and everything else is unknown (None)"""
+    if isinstance(e, ast.UnaryOp) and isinstance(e.op, ast.Not):
+        v = _tri(e.operand, is_elem_cmp)
+        return None if v is None else (not v)
+    if isinstance(e, ast.BoolOp):
+        vs = [_tri(v, is_elem_cmp) for v in e.values]
+        if isinstance(e.op, ast.And):
+            if any(v is False for v in vs):
+                return False
+            return True if all(v is True for v in vs) else None
+        if any(v is True for v in vs):
+            return True
+        return False if all(v is False for v in vs) else None
+    if isinstance(e, ast.Compare) and is_elem_cmp(e):
+        return False
+    return None
+
+
+def unordered_rejected(r: R, chk, qual: str, rule="UNORDERED"):
+    """the validator accepts only vectors with u_i <= u_(i+1) for every i.  A pair that is not ordered at all (a NaN) makes every
+    order comparison False; where a test consists of such comparisons between elements of the vector, the outcome it has when they
+    are all False must not lead to acceptance.  `if not a <= b: return False` rejects, `if a > b: return False` lets it through."""
+    ctx = r.root(qual)
+    fi = ctx.fi
+    cfg = ctx.cfg
+    vec = next((p for p in fi.params if p not in ("self", "cls")), None)
+    elems = {vec}
+    for a in ast.walk(fi.node):
+        if isinstance(a, (ast.For, ast.comprehension)):
+            srcs = {x.id for x in ast.walk(a.iter) if isinstance(x, ast.Name)}
+            if vec in srcs and not any(isinstance(x, ast.Call) and isinstance(x.func, ast.Name) and x.func.id in ("range", "len") for x in ast.walk(a.iter)):
+                elems |= {x.id for x in ast.walk(a.target) if isinstance(x, ast.Name)}
+
+    def is_elem(x):
+        if isinstance(x, ast.Subscript):
+            return isinstance(x.value, ast.Name) and x.value.id == vec and not isinstance(x.slice, ast.Slice)
+        return isinstance(x, ast.Name) and x.id in elems - {vec}
+
+    def is_elem_cmp(c):
+        return len(c.ops) == 1 and isinstance(c.ops[0], (ast.Lt, ast.LtE, ast.Gt, ast.GtE)) and is_elem(c.left) and is_elem(c.comparators[0])
+
+    live = cfg.live_nodes()
+    accepting = {n.id for n in cfg.nodes if n.id in live and isinstance(n.ast, ast.Return) and not (isinstance(n.ast.value, ast.Constant) and n.ast.value.value in (False, None))}
+    n = 0
+    for t in cfg.nodes:
+        if t.kind != "test" or t.id not in live or not isinstance(t.ast, ast.expr):
+            continue
+        if not any(isinstance(c, ast.Compare) and is_elem_cmp(c) for c in ast.walk(t.ast)):
+            continue
+        v = _tri(t.ast, is_elem_cmp)
+        if v is None:
+            continue
+        n += 1
+        lab = "t" if v else "f"
+        reach = set()
+        for s_, l_ in t.succ:
+            if l_ == lab:
+                reach |= cfg.reachable(s_, exc=False)
+        ok = not (reach & accepting)
+        chk.ob(rule, f"{qual}: `{seg(t.ast, 40)}` rejects a pair that is not ordered", ok, loc=r.loc(ctx, t.ast),
+               detail="" if ok else f"{qual}: when neither `<=` nor `>` holds between two neighbouring elements (a NaN), `{seg(t.ast, 40)}` is {v} and the vector goes on to be accepted: a KnotVector that is not non-decreasing becomes obtainable (span() on it does not terminate); the test has to accept only on a comparison that holds (`not a <= b` rejects)",
+               func=qual, construct="order test lets an unordered pair through")
+    if not n:
+        chk.note(f"{rule}: {qual}: no test made of order comparisons between elements of the vector found: not decided")
+    return n
+
+
 def run(m, chk):
     r = R(m, chk)
     chk.explanation = (
@@ -95,7 +164,7 @@ def run(m, chk):
         "no IndexError from the constructor's index scans (X-INDEX), span/mult/split dominated by the valid ⇒ ValueError guard. "
         "Completeness of the validator (that it accepts exactly the clamped vectors) and the values of span/mult are not decided."
     )
-    chk.decides = ["FUNNEL", "COMMIT-LAST (KnotVector)", "V1", "X-INDEX", "GATE(valid ⇒ ValueError) for span/mult/split", 'MULT-KEEP (distinct knots never become knot-vector elements without their multiplicity)']
+    chk.decides = ["UNORDERED (the sortedness test of the validator rejects a pair that is not ordered at all)", "FUNNEL", "COMMIT-LAST (KnotVector)", "V1", "X-INDEX", "GATE(valid ⇒ ValueError) for span/mult/split", 'MULT-KEEP (distinct knots never become knot-vector elements without their multiplicity)']
     chk.not_decided = ["completeness of __is_valid (tails / unclamped vectors are accepted — seen by reading, out of static reach)", "agreement of span/mult/knots/limits values with the element list"]
 
     # 1. funnel ------------------------------------------------------------------------------
@@ -215,3 +284,4 @@ def run(m, chk):
         ok = not bad
         chk.ob("GATE-VALID", f"{q}: everything after `if not self.valid(nodes): raise ValueError`", ok, loc=r.loc(c, bad[0].ast) if bad else r.loc(c, c.fi.node),
                detail="" if ok else f"{q}: `{seg(bad[0].ast, 60)}` is reachable without the `valid(nodes)` ⇒ ValueError guard: a node outside the interval yields a value / another exception", func=q, construct="unguarded query")
+    unordered_rejected(r, chk, "heavy.ImmutableKnotVector.__is_valid")
